@@ -2955,7 +2955,8 @@ impl LineBuf {
 				MotionKind::LineOffset(-(lines_up as isize))
 			}
 			MotionCmd(_count,Motion::EndOfBuffer) => {
-				let lines_down = self.total_lines() - self.cursor_line_number();
+				// The text after a final newline is not a line to go to
+				let lines_down = (self.line_count() - 1).saturating_sub(self.cursor_line_number());
 				let cursor_col = self.cursor_col();
 				self.saved_col = Some(cursor_col);
 				MotionKind::LineOffset(lines_down as isize)
@@ -3124,9 +3125,12 @@ impl LineBuf {
 				if target_line > self.total_lines() {
 					self.cursor.set(self.cursor.max);
 				} else {
-					let Some((mut target_pos,_)) = self.line_bounds(target_line) else { return };
+					let Some((mut target_pos,end)) = self.line_bounds(target_line) else { return };
 					if let Some(col) = self.saved_col {
-						target_pos += col;
+						// Keep the column, but stay on the target line
+						let newline = if end > target_pos && self.grapheme_at(end - 1) == Some("\n") { 1 } else { 0 };
+						let line_len = end - target_pos - newline;
+						target_pos += col.min(line_len.saturating_sub(1));
 					}
 					self.cursor.set(target_pos);
 				}
